@@ -56,7 +56,7 @@ Lemma rhu5_spec v :
   (v + (1 # 100000000000000000)) * 100000 <= inject_Z (rhu_k v 5) + (1 # 2).
 Proof.
   unfold rhu_k. pose proof (round_even_k_spec (v + / p10 (5 + 12)) 5) as H.
-  rewrite p10_5, ip10_17 in H. exact H.
+  exact H.
 Qed.
 
 Lemma rhu2_spec v :
@@ -64,7 +64,7 @@ Lemma rhu2_spec v :
   (v + (1 # 100000000000000)) * 100 <= inject_Z (rhu_k v 2) + (1 # 2).
 Proof.
   unfold rhu_k. pose proof (round_even_k_spec (v + / p10 (2 + 12)) 2) as H.
-  rewrite p10_2, ip10_14 in H. exact H.
+  exact H.
 Qed.
 
 Lemma rhu6_spec v :
@@ -72,5 +72,180 @@ Lemma rhu6_spec v :
   (v + (1 # 1000000000000000000)) * 1000000 <= inject_Z (rhu_k v 6) + (1 # 2).
 Proof.
   unfold rhu_k. pose proof (round_even_k_spec (v + / p10 (6 + 12)) 6) as H.
-  rewrite p10_6, ip10_18 in H. exact H.
+  exact H.
+Qed.
+
+(* ------------------------------------------------------------------ DMS split *)
+(* the split of x = |dd| * 3600 seconds is exact: x = 3600 d + 60 m + sec, 0 <= sec < 60,
+   0 <= m < 60, and the reported seconds are round_half_up(sec, 5) *)
+Lemma dms_of_x_decomp x ps : 0 <= x ->
+  exists sec, 0 <= sec /\ sec < 60 /\
+    x == 3600 * inject_Z (dg (dms_of_x x ps)) + 60 * inject_Z (mn (dms_of_x x ps)) + sec /\
+    s5 (dms_of_x x ps) = rhu_k sec 5 /\
+    (0 <= dg (dms_of_x x ps))%Z /\ (0 <= mn (dms_of_x x ps) < 60)%Z /\ pos (dms_of_x x ps) = ps.
+Proof.
+  intro Hx. unfold dms_of_x. cbn [dg mn s5 pos].
+  set (y := x / 60). assert (Hy : x == 60 * y) by (unfold y; field).
+  set (mt := Qfloor y).
+  destruct (floor_bounds y) as [L U]. fold mt in L, U.
+  assert (Hmt : (0 <= mt)%Z).
+  { change 0%Z with (Qfloor 0). apply Qfloor_resp_le. lra. }
+  pose proof (Z.div_mod mt 60 ltac:(lia)) as DM.
+  pose proof (Z.mod_pos_bound mt 60 ltac:(lia)) as MB.
+  assert (HQ : inject_Z mt == 60 * inject_Z (mt / 60) + inject_Z (mt mod 60)).
+  { rewrite DM at 1. rewrite inject_Z_plus, inject_Z_mult. reflexivity. }
+  exists (x - 60 * inject_Z mt). repeat split; try lra; try lia.
+Qed.
+
+Lemma s5_range sec : 0 <= sec -> sec < 60 -> (0 <= rhu_k sec 5 <= 6000000)%Z.
+Proof.
+  intros A B. destruct (rhu5_spec sec) as [L U].
+  eapply int_between; [exact L|exact U| |]; unfold inject_Z; lra.
+Qed.
+
+(* to_dms, one axis: ranges, the degrees are the integer part of |dd|, hemisphere <-> sign *)
+Lemma dms_ranges dd :
+  let t := to_dms_axis dd in
+  (0 <= mn t < 60)%Z /\ (0 <= s5 t <= 6000000)%Z /\
+  (inject_Z (dg t) <= Qabs dd /\ Qabs dd < inject_Z (dg t) + 1) /\
+  (pos t = true <-> 0 <= dd).
+Proof.
+  cbv zeta. unfold to_dms_axis.
+  assert (Hx : 0 <= Qabs dd * 3600).
+  { pose proof (Qabs_nonneg dd). lra. }
+  destruct (dms_of_x_decomp _ (Qle_bool 0 dd) Hx) as (sec & S0 & S1 & E & ES & D0 & M & P).
+  set (t := dms_of_x (Qabs dd * 3600) (Qle_bool 0 dd)) in *.
+  split; [exact M|]. split; [rewrite ES; now apply s5_range|].
+  assert (M1 : 0 <= inject_Z (mn t) /\ inject_Z (mn t) <= 59).
+  { split; [change 0 with (inject_Z 0)|change 59 with (inject_Z 59)]; rewrite <- Zle_Qle; lia. }
+  split; [split; lra|]. rewrite P. apply Qle_bool_iff.
+Qed.
+
+(* the seconds value 60.0 does occur (rounding up is not carried into the minutes) *)
+Lemma dms_seconds_60_reachable : exists dd, s5 (to_dms_axis dd) = 6000000%Z /\ mn (to_dms_axis dd) = 59%Z.
+Proof. exists (9999999999 # 10000000000). split; reflexivity. Qed.
+
+(* ------------------------------------------------------------------ DMS join and round trip *)
+(* half a unit of the fifth decimal of a second plus round_half_up's own nudge, in degrees *)
+Definition dms_eps : Q := (1 # 720000000) + (1 # 360000000000000000000).
+Lemma dms_eps_is : dms_eps == ((1 # 200000) + (1 # 100000000000000000)) / 3600.
+Proof. reflexivity. Qed.
+
+Lemma dms_num_unfold t :
+  dms_num t * 3600 ==
+  (if pos t then 1 else -1) *
+  (3600 * inject_Z (dg t) + 60 * inject_Z (mn t) + inject_Z (s5 t) / 100000).
+Proof.
+  unfold dms_num, dms_value. change (p10 5) with 100000. destruct (pos t); field.
+Qed.
+
+Lemma Qabs_cases x : (0 <= x /\ Qabs x == x) \/ (x < 0 /\ Qabs x == - x).
+Proof.
+  destruct (Qlt_le_dec x 0) as [L|L].
+  - right. split; [exact L|]. apply Qabs_neg. lra.
+  - left. split; [exact L|]. now apply Qabs_pos.
+Qed.
+
+Lemma Qle_bool_0_cases dd :
+  (0 <= dd /\ Qle_bool 0 dd = true) \/ (dd < 0 /\ Qle_bool 0 dd = false).
+Proof.
+  destruct (Qle_bool 0 dd) eqn:E.
+  - left. split; [now apply Qle_bool_iff|reflexivity].
+  - right. split; [now apply Qle_bool_false|reflexivity].
+Qed.
+
+(* from_dms's number for to_dms's tuple is within dms_eps of the value, on each axis, for
+   every rational value *)
+Lemma dms_axis_roundtrip dd :
+  - dms_eps <= dms_num (to_dms_axis dd) - dd /\ dms_num (to_dms_axis dd) - dd <= dms_eps.
+Proof.
+  unfold to_dms_axis.
+  assert (Hx : 0 <= Qabs dd * 3600).
+  { pose proof (Qabs_nonneg dd). lra. }
+  destruct (dms_of_x_decomp _ (Qle_bool 0 dd) Hx) as (sec & S0 & S1 & E & ES & D0 & M & P).
+  pose proof (dms_num_unfold (dms_of_x (Qabs dd * 3600) (Qle_bool 0 dd))) as U.
+  set (t := dms_of_x (Qabs dd * 3600) (Qle_bool 0 dd)) in *.
+  rewrite P in U. destruct (rhu5_spec sec) as [RL RU]. rewrite <- ES in RL, RU.
+  set (k := inject_Z (s5 t)) in *. set (s' := k / 100000) in *.
+  assert (Hs : s' * 100000 == k) by (unfold s'; field).
+  unfold dms_eps.
+  destruct (Qabs_cases dd) as [[A EA]|[A EA]];
+    destruct (Qle_bool_0_cases dd) as [[B EB]|[B EB]]; try lra;
+    rewrite EB in U; rewrite EA in E; split; lra.
+Qed.
+
+(* |dd| <= B (an integer number of degrees) keeps from_dms's number within [-B, B]:
+   rounding the seconds up to 60 never carries past the next whole degree *)
+Lemma dms_num_bound dd (B : Z) : Qabs dd <= inject_Z B ->
+  - inject_Z B <= dms_num (to_dms_axis dd) /\ dms_num (to_dms_axis dd) <= inject_Z B.
+Proof.
+  intro HB. unfold to_dms_axis.
+  assert (Hx : 0 <= Qabs dd * 3600).
+  { pose proof (Qabs_nonneg dd). lra. }
+  destruct (dms_of_x_decomp _ (Qle_bool 0 dd) Hx) as (sec & S0 & S1 & E & ES & D0 & M & P).
+  pose proof (dms_num_unfold (dms_of_x (Qabs dd * 3600) (Qle_bool 0 dd))) as U.
+  set (t := dms_of_x (Qabs dd * 3600) (Qle_bool 0 dd)) in *.
+  pose proof (s5_range sec S0 S1) as KR. rewrite <- ES in KR.
+  destruct (rhu5_spec sec) as [RL RU]. rewrite <- ES in RL, RU.
+  assert (M1 : 0 <= inject_Z (mn t) /\ inject_Z (mn t) <= 59).
+  { split; [change 0 with (inject_Z 0)|change 59 with (inject_Z 59)]; rewrite <- Zle_Qle; lia. }
+  assert (K1 : 0 <= inject_Z (s5 t) /\ inject_Z (s5 t) <= 6000000).
+  { split; [change 0 with (inject_Z 0)|change 6000000 with (inject_Z 6000000)]; rewrite <- Zle_Qle; lia. }
+  assert (D1 : 0 <= inject_Z (dg t)).
+  { change 0 with (inject_Z 0). rewrite <- Zle_Qle. exact D0. }
+  (* the non-negative magnitude V = d + m/60 + s'/3600 is at most B *)
+  assert (HV : 3600 * inject_Z (dg t) + 60 * inject_Z (mn t) + inject_Z (s5 t) / 100000
+               <= 3600 * inject_Z B).
+  { set (k := inject_Z (s5 t)) in *. set (s' := k / 100000).
+    assert (Hs : s' * 100000 == k) by (unfold s'; field).
+    assert (DB : (dg t <= B)%Z).
+    { apply inject_Z_le_inv. lra. }
+    destruct (Z.eq_dec (dg t) B) as [EQ|NE].
+    - (* d = B: then m = 0 and sec = 0, so the rounded seconds are 0 *)
+      rewrite EQ in *.
+      assert (M0 : inject_Z (mn t) == 0) by lra.
+      assert (S00 : sec == 0) by lra.
+      assert (K0 : (0 <= s5 t <= 0)%Z).
+      { eapply int_between; [exact RL|exact RU| |]; unfold inject_Z; lra. }
+      assert (k == 0) as K00. { unfold k. replace (s5 t) with 0%Z by lia. reflexivity. }
+      lra.
+    - assert (DB' : (dg t + 1 <= B)%Z) by lia.
+      rewrite Zle_Qle in DB'. rewrite inject_Z_plus in DB'. change (inject_Z 1) with 1 in DB'.
+      lra. }
+  assert (HV0 : 0 <= 3600 * inject_Z (dg t) + 60 * inject_Z (mn t) + inject_Z (s5 t) / 100000).
+  { set (k := inject_Z (s5 t)) in *. set (s' := k / 100000).
+    assert (Hs : s' * 100000 == k) by (unfold s'; field). lra. }
+  destruct (pos t); split; lra.
+Qed.
+
+Lemma Qabs_le_of x b : - b <= x -> x <= b -> Qabs x <= b.
+Proof. intros A B. apply Qabs_Qle_condition. split; assumption. Qed.
+
+Definition canonical (c : coord) : Prop :=
+  (-180 <= clon c /\ clon c < 180) /\ (-90 <= clat c /\ clat c <= 90).
+
+Definition within (eps a b : Q) : Prop := - eps <= a - b /\ a - b <= eps.
+
+(* from_dms (to_dms c) for a stored (canonical) coordinate: never fails, latitude within
+   dms_eps, longitude within dms_eps - modulo the full turn when the seconds round up to
+   180 degrees exactly and the constructor maps 180 to -180 *)
+Lemma dms_roundtrip c : canonical c ->
+  exists c', from_dms (fst (to_dms c)) (snd (to_dms c)) = Ok c' /\
+    within dms_eps (clat c') (clat c) /\
+    (within dms_eps (clon c') (clon c) \/ within dms_eps (clon c' + 360) (clon c)).
+Proof.
+  intros [[L1 L2] [B1 B2]]. unfold to_dms, from_dms, mk. cbn [fst snd].
+  destruct (dms_num_bound (clon c) 180) as [A1 A2].
+  { apply Qabs_le_of; unfold inject_Z; lra. }
+  destruct (dms_num_bound (clat c) 90) as [A3 A4].
+  { apply Qabs_le_of; unfold inject_Z; lra. }
+  unfold inject_Z in A1, A2, A3, A4.
+  rewrite norm_closed_range by lra.
+  eexists. split; [reflexivity|]. cbn [clon clat].
+  destruct (dms_axis_roundtrip (clon c)) as [R1 R2].
+  destruct (dms_axis_roundtrip (clat c)) as [R3 R4].
+  split; [split; assumption|].
+  destruct (canon180_cases (dms_num (to_dms_axis (clon c))) A2) as [[H ->]|[H ->]].
+  - left. split; assumption.
+  - right. split; lra.
 Qed.
